@@ -140,6 +140,22 @@ class DomB:
     def named(self, name):
         if name == "EPS":
             return BV([POS], ex=self.eps)
+        if name == "EPS_f64":
+            return BV([POS], ex=Fr(1, 2 ** 52))
+        if name == "EPS_f32":
+            return BV([POS], ex=Fr(1, 2 ** 23))
+        if name == "F::MIN_POSITIVE":
+            return BV([POS], ex=Fr(1, 2 ** 1022))
+        if name == "F::MAX":
+            return BV([POS], ex=Fr(2) ** 1024 - Fr(2) ** 971)
+        if name == "F::MIN":
+            return BV([NEG], ex=-(Fr(2) ** 1024 - Fr(2) ** 971))
+        if name == "F::INFINITY":
+            return BV([PINF])
+        if name == "F::NEG_INFINITY":
+            return BV([NINF])
+        if name == "F::NAN":
+            return BV([NAN])
         if name.startswith("$") or name.startswith("dim_"):
             return BV([ZERO, POS])
         return BV([POS])
